@@ -19,6 +19,18 @@
  * Not blocking points: pthread_mutex_unlock, pthread_cond_signal/broadcast, pthread_create
  * (the new thread is registered at VS_START and runs only when the controller steps it).
  *
+ * Fine mode (opt-in, vs_set_fine(1) after vs_reset(); off by default, so existing users are unaffected):
+ * two more scheduling points, both of kind VS_YIELD and always enabled —
+ *   tag "locked"   right after a mutex was acquired (by pthread_mutex_lock or when pthread_cond_wait
+ *                  returns); the thread HOLDS the mutex there, so threads at VS_LOCK / VS_COND on it stay
+ *                  disabled and only lock-free code of other threads can be interleaved with the critical
+ *                  section;
+ *   tag "unlock"   right after pthread_mutex_unlock released the mutex: the window between the unlock and
+ *                  the thread's next blocking point is explored.
+ * vs_fine_point(tid) tells them apart (1 = "locked", 2 = "unlock", 0 = neither);
+ * vs_mutexes_held_coarse() counts the mutexes owned by a thread that is NOT at a "locked" point (0 at every
+ * scheduling point iff no critical section contains another blocking point).
+ *
  * pthread_cond_signal marks the longest-waiting unsignalled waiter, pthread_cond_broadcast all
  * current waiters.  Mutexes and condition variables are identified by address; the pthread
  * objects themselves are never touched.
@@ -65,6 +77,9 @@ int vs_signalled(int tid);
 int vs_join_target(int tid);
 int vs_nthreads(void);
 int vs_mutexes_held(void);
+void vs_set_fine(int on);
+int vs_fine_point(int tid);
+int vs_mutexes_held_coarse(void);
 int vs_deadlocked(void);
 void vs_kill_all(void);
 int vs_self(void);
